@@ -23,6 +23,11 @@ func (e *Event /*{{- if hasParams}}{{paramCount}}{{"["}}{{types}}{{"]"}}{{end}}*
 	}
 
 	e.hooks.ForEach(func(_ uint64, hook *Hook[func( /*{{- types -}}*/ )]) bool {
+		if hook.unhooked.Load() {
+			// the iteration can still reach a hook that was unhooked after this Trigger started
+			return true
+		}
+
 		if hook.currentTriggerExceedsMaxTriggerCount() {
 			hook.Unhook()
 
